@@ -276,11 +276,15 @@ fn gen_c06(p: &Pools, rng: &mut Rng, pb: &mut PB) {
                 let r = pb.call("from_angle", "m", &[tt, an]);
                 pb.call("iter_product", *rng.pick(&["v", "r"]), &[tt, r, one, r]);
             } else {
-                let ax = pb.load(Val::V3(uv3(p, rng)));
-                let an = pb.load(ang_val_(rsym(rng, true, 1), rng));
-                let r = pb.call("from_axis_angle", "m", &[tt, ax, an]);
-                if ty == "Basis3" { pb.call("iter_product", *rng.pick(&["v", "r"]), &[tt, r, one, r]); }
-                else { pb.call("iter_product", *rng.pick(&["v", "r"]), &[tt, r, r]); }
+                // products of rotations about DIFFERENT axes do not commute: the fold order is observable
+                // (coordinate axes keep the denominators of the product inside the model's budget)
+                let an = pb.load(ang_val_(sym(*rng.pick(&[0i64, 2]), *rng.pick(&[2i64, -2]), 0), rng));
+                let r = pb.call(*rng.pick(&["from_angle_x", "from_angle_z"]), "m", &[tt, an]);
+                let an2 = pb.load(ang_val_(sym(*rng.pick(&[0i64, -2]), *rng.pick(&[2i64, -2]), 0), rng));
+                let r2 = pb.call("from_angle_y", "m", &[tt, an2]);
+                let f = *rng.pick(&["v", "r"]);
+                if rng.chance(1, 2) { pb.call("iter_product", f, &[tt, r, r2]); } else { pb.call("iter_product", f, &[tt, r2, one, r]); }
+                pb.call("iter_product", f, &[tt]);
             }
         }
     }
@@ -1101,7 +1105,7 @@ fn gen_c18(p: &Pools, rng: &mut Rng, pb: &mut PB) {
 // ------------------------------------------------------------------ C19
 const SCALARS: &[&str] = &["i8", "i16", "i32", "i64", "isize", "u8", "u16", "u32", "u64", "usize", "f32", "f64"];
 fn gen_c19(_p: &Pools, rng: &mut Rng, pb: &mut PB) {
-    let ty = *rng.pick(&["Vector1", "Vector2", "Vector3", "Vector4", "Point1", "Point2", "Point3", "Matrix2", "Quaternion", "Vector3", "Vector4", "Point3"]);
+    let ty = *rng.pick(&["Vector1", "Vector2", "Vector3", "Vector4", "Point1", "Point2", "Point3", "Matrix2", "Matrix3", "Matrix4", "Quaternion", "Vector3", "Vector4", "Point3"]);
     let src = *rng.pick(SCALARS);
     let dst = if ty == "Quaternion" { *rng.pick(&["f32", "f64"]) } else { *rng.pick(SCALARS) };
     let n = ncomp(ty);
